@@ -118,7 +118,10 @@ def equiv(t1, t2):
     """Equivalence of two condition trees: matching quantifier prefixes are peeled (same kind, class and dummy), conjunctions /
     disjunctions that contain quantifiers are matched as multisets, the quantifier-free remainder propositionally."""
     if t1[0] in ("exists", "forall") and t2[0] == t1[0]:
-        if t1[1] != t2[1] or t1[2] != t2[2]:
+        if t1[1] != t2[1]:
+            # bound names are arbitrary: rename the second formula's dummy (dummies are unique tokens, also inside range keys)
+            t2 = _rename(t2, t2[1], t1[1])
+        if t1[2] != t2[2]:
             return False, "quantifier ranges differ: %s∈%s vs %s∈%s" % (t1[1], t1[2], t2[1], t2[2])
         return equiv(t1[3], t2[3])
     for k in ("and", "or"):
@@ -135,6 +138,14 @@ def equiv(t1, t2):
     except NotComparable as e:
         ok = normal_text(t1) == normal_text(t2)
         return ok, "compared as normalised text (%s)" % e
+
+
+def _rename(t, old, new):
+    if isinstance(t, tuple):
+        return tuple(_rename(x, old, new) for x in t)
+    if isinstance(t, str):
+        return t.replace(old, new)
+    return t
 
 
 def has_quant(t):
